@@ -127,6 +127,11 @@ fn run<const P: usize>(sinks: usize, streams: usize, max_tokens: usize, faults: 
 }
 
 proof!(t_pubsub_s1_p1_t2_polls3, 8, { run::<3>(1, 1, 2, false) });
+// 3-poll variants with a second subscriber / a second publisher / faults (the 4- and 5-poll
+// scenarios below exceed 16 GB and are not part of any tier)
+proof!(t_pubsub_s2_p1_t2_polls3, 10, { run::<3>(2, 1, 2, false) });
+proof!(t_pubsub_s1_p2_t2_polls3, 10, { run::<3>(1, 2, 2, false) });
+proof!(t_pubsub_faults_s1_p1_t2_polls3, 10, { run::<3>(1, 1, 2, true) });
 proof!(t_pubsub_s2_p1_t2_polls4, 10, { run::<4>(2, 1, 2, false) });
 proof!(t_pubsub_s2_p2_t3_polls5, 13, { run::<5>(2, 2, 3, false) });
 proof!(t_pubsub_faults_s2_p1_t2_polls4, 12, { run::<4>(2, 1, 2, true) });
